@@ -20,6 +20,20 @@ CHECKS = {
                 note='trusted: load::read modelled (generation k on the k-th call; the manifest is file 0 as in the real loader), S-cut scheduler environment, '
                      'parse_args modelled; failing paths are replayed end to end with the n2 binary and generator scripts',
                 tech=M + '; two-generation manifest model; end-to-end native replay', ref='DESIGN.md section 4, C17'),
+    'C16': dict(engine='M', cat='other',
+                text='USER-SPACE PART ONLY: bounded symbolic execution of the real task::run_task (with its output closure, write_rspfile, find_last_line) '
+                     'and process_posix::run_command / pipe2 / PosixSpawnAttr / PosixSpawnFileActions against an explicit POSIX model written in the check '
+                     '(descriptor table with close-on-exec, spawn file actions applied in order in the child, a pipe that reports end-of-file only when no '
+                     'write end is left open, the two wait-status encodings): argv is exactly /bin/sh -c <evaluated command bytes>, the child holds exactly '
+                     '0 = /dev/null read-only and 1, 2 = its own pipe (no log, no other command\'s pipe, while another command is running), the response file '
+                     'is written with exactly the evaluated content before the spawn, the captured output equals the bytes written for output sizes around '
+                     'the 4 KiB buffer under four chunking patterns, run_command neither hangs nor leaks its pipe, and the wait status maps to '
+                     'Success / Interrupted / Failure as the property states.  That the kernel, libc and /bin/sh behave as the model says, true thread '
+                     'concurrency, the printing by the progress front ends and Windows are outside this technique and NOT claimed',
+                note='trusted: the POSIX model in checks/C16.py (every libc call of process_posix.rs is a model there), std models, files opened by std are '
+                     'close-on-exec; a counterexample is confirmed with the built n2 binary in a scratch project (commands listing /proc/$$/fd, echoing '
+                     'quoting-heavy text, writing N bytes, exiting / killing themselves) before it is reported',
+                tech=M + '; explicit POSIX model as environment; native probe with the n2 binary', ref='DESIGN.md section 4, C16'),
     'C20': dict(engine='M+K', cat='other',
                 text='bounded symbolic execution of the real render helpers: task_message over valid UTF-8 text of every character-length pattern '
                      'up to the byte bound with symbolic seconds (0..10^6) and width (10..300), truncate with a symbolic limit, progress_bar with '
@@ -126,8 +140,6 @@ CHECKS = {
 }
 
 NOT_APPLICABLE = {
-    'C16': 'OS process/pipe/signal semantics behind FFI (posix_spawn, pipes, /bin/sh, SIGINT): no symbolic model of the kernel is within '
-           'reach of either engine; the two pure helpers it touches are credited to C05/C09',
 }
 
 PENDING_REASON = 'check under construction in this framework (see DESIGN.md section 8); not claimed until its check runs clean on the unchanged tree'
